@@ -5,6 +5,10 @@ package vault
 // endpoint, request parameter combination and role configuration over a 5-name policy universe.
 //
 //vx:pkg github.com/openbao/openbao/v2/internal/vault
+//vx:assume policy universe {root, default, p, q, response-wrapping}; token lookup/create, sudo decision, namespaces, entity-alias resolution, policy store and FieldData accessors are stubs; duration strings are opaque literals naming arbitrary durations
+//vx:assume clock model: instants are whole seconds; (Time).Unix()/time.Unix(v,0) round-trip
+//vx:assume mount default ttl > 0 and <= mount max ttl; parent ttl >= 0
+//vx:assume interpretation: a root token made by a NON-expiring root token is bound by its explicit maximum only
 //vx:bodies context,github.com/openbao/openbao/sdk/v2/logical,github.com/openbao/openbao/v2/internal/helper/namespace,github.com/openbao/openbao/sdk/v2/helper/policyutil,github.com/hashicorp/go-secure-stdlib/strutil,github.com/openbao/openbao/sdk/v2/framework,github.com/openbao/openbao/v2/internal/vault/policy,github.com/ryanuber/go-glob
 //vx:redirect (*github.com/openbao/openbao/v2/internal/vault.TokenStore).Lookup vxLookup
 //vx:redirect (*github.com/openbao/openbao/v2/internal/vault.TokenStore).create vxCreate
